@@ -39,8 +39,8 @@ Refs == { a \in Aligns : a \notin {"none", "axis"} }
 Init == /\ cfg = [b \in Builders |-> DefaultCfg]
         /\ choice = [b \in Builders |-> [n \in Names |-> None]]
         /\ perm = [b \in Builders |-> FALSE]
-        /\ out = [b \in Builders |-> [key |-> None, stale |-> FALSE]]
-        /\ dpdCache = [r \in Refs |-> "clean"]
+        /\ out = [b \in Builders |-> [key |-> <<>>, stale |-> FALSE]]
+        /\ dpdCache = [r \in Refs |-> <<>>]
         /\ leaked = [b \in Builders |-> {}]
         /\ nops = 0
 
@@ -69,12 +69,12 @@ Formulate(b) ==
          usesDpd == a \in Refs
          \* the dictionary of zeta definitions this call sees
          stale1 == /\ "DpdCacheAliasing" \in Dev /\ usesDpd
-                   /\ dpdCache[a] # "clean" /\ dpdCache[a] # SubstKey(b)
+                   /\ dpdCache[a] # <<>> /\ dpdCache[a] # SubstKey(b)
          \* parameters registered by earlier calls of this builder that the current dynamics
          \* choice does not register
          stale2 == "NoReset" \in Dev /\ leaked[b] \ { n \in Names : choice[b][n] # None } # {}
      IN /\ out' = [out EXCEPT ![b] = [key |-> Key(b), stale |-> stale1 \/ stale2]]
-        /\ dpdCache' = IF "DpdCacheAliasing" \in Dev /\ usesDpd /\ dpdCache[a] = "clean"
+        /\ dpdCache' = IF "DpdCacheAliasing" \in Dev /\ usesDpd /\ dpdCache[a] = <<>>
                        THEN [dpdCache EXCEPT ![a] = SubstKey(b)] ELSE dpdCache
         /\ leaked' = IF "NoReset" \in Dev
                      THEN [leaked EXCEPT ![b] = @ \cup { n \in Names : choice[b][n] # None }]
@@ -93,7 +93,7 @@ Spec == Init /\ [][Next]_vars
 \* C06: the model a builder returns is the function of its key, whatever the history
 Pure == \A b \in Builders : ~ out[b].stale
 \* two builders with the same key have produced the same model
-Agree == \A a, b \in Builders : (out[a].key # None /\ out[a].key = out[b].key) => out[a] = out[b]
+Agree == \A a, b \in Builders : (out[a].key # <<>> /\ out[a].key = out[b].key) => out[a] = out[b]
 \* configuring one builder never changes another one (no shared selector / configuration)
 Isolation == [][\A b \in Builders :
                   (cfg'[b] # cfg[b] \/ choice'[b] # choice[b] \/ perm'[b] # perm[b])
